@@ -32,6 +32,9 @@ MODELLED_NOT_VERIFIED = [
     "C18: GSA (gsa_ntax), num_extinct_tips/num_total_tips stops, retained extinct tips, discrete_birth_death_tree (constant rates) and a "
     "caller-supplied start tree (tree=) are outside the statement's quantifier but modelled (ops gsa, bdx, dbd, bdt), compared per case and "
     "covered by theorems; the GSA crash (TypeError when a clade cut away by the slice went extinct) is predicted by the model, not judged",
+    "C18: GSA results (birth_death_tree and fast_birth_death_tree with gsa_ntax) are judged by the oracle like any other birth-death tree "
+    "when a tree is returned (N equidistant distinct-taxon leaves); the known TypeError of the GSA pruning loop is tolerated; the fast "
+    "variant's GSA, extinct/total stops and tree= continuation are oracle-only (no model)",
     "C18: retained extinct tips are recognised on the implementation by the library's own is_extinct attribute (None on extinct tips)",
 ]
 EXPLANATION = ("Theorems (Props/C18.lean) hold for EVERY draw list, i.e. every behaviour of the generator. wic_*: weighted_index_choice picks "
@@ -56,10 +59,16 @@ EXPLANATION = ("Theorems (Props/C18.lean) hold for EVERY draw list, i.e. every b
                "rule), GoodStart / goodStart_default (tree= continuation: every bd_* theorem now holds from any admissible start tree; the restart "
                "restores the start tree), gsa_selects_last (the slice loop always returns the last slice), gsa_result (cut back to a slice = the "
                "tree as it stood then: exactly N equidistant extant leaves), dbd_result (discrete simulator: equidistant, >= ntax leaves). "
+               "Last round: gsa_only_script_errors_or_assert (+ gsa_assert_when_zero_duration): a GSA run fails only on its script or on the "
+               "code's own assert (slices of total duration 0); fbd_iter_progress, fbd_sinv_step; coalesce_succeeds_all / _cut and "
+               "contained_succeeds (script trees SScr, OKRoot): the contained coalescent returns a tree on every well-formed containing tree "
+               "and script; evolving rates below zero are modelled (wicN: the code normalises by the rate sum, so the comparison flips for a "
+               "negative sum and a zero sum is its ZeroDivisionError): wicN_pos, wicN_none_iff, LInv, bd_iter_state_error, "
+               "bd_iter_zero_sum_fails, bd_state_error_iff_zero_rate_sum, bd_errors_any_rates (the model's state error under any gauss "
+               "draws is exactly a reached zero rate sum). "
                "Final round: bd_taxa_range / fbd_taxa_range (members of the supplied namespace first, new taxa numbered on from n0), "
                "kingman_succeeds / pb_succeeds (every well-formed script yields a tree), dbd_only_script_errors. Stated limits: every bd_* "
-               "result assumes an admissible start tree (GoodStart; default fresh tree admissible) and, for no-internal-failure, gauss draws "
-               "that never lower a rate; gsa_result / dbd_result are conditional on a tree being returned; expovariate's rate argument "
+               "result assumes an admissible start tree (GoodStart; default fresh tree admissible) (bd_only_script_errors assumes gauss draws that never lower a rate; bd_errors_any_rates does not); gsa_result / dbd_result are conditional on a tree being returned; expovariate's rate argument "
                "is not modelled (waiting times are inputs). "
                "Determinism (clause d) is definitional in the model (functions of arguments and draw list); its content is the tie: "
                "tripwires on GLOBAL_RNG / random.*, equal-state double runs with shaken memory layout, fresh-interpreter runs.")
@@ -132,7 +141,13 @@ class ScriptRng(object):
     def gauss(self, mu, sigma):
         k = ((self.pick(5) - 2) if self.gauss_signed else self.pick(3)) if sigma else 0
         v = mu + sigma * k
-        self.log.append("g%d" % rate_int(v))
+        try:
+            self.log.append("g%d" % rate_int(v))
+        except ValueError:
+            # not representable in the model's rate unit: the run goes on (it must not see a harness exception), the log is
+            # marked and the case is not compared with the model
+            self.log.append("g?")
+            self.incomparable = True
         return v
 
     def uniform(self, a, b):
@@ -409,8 +424,8 @@ def run_sim(dendropy, case, rng):
     if sim == "gsa":
         tns = mk_namespace(dendropy, p.get("ns"))
         kw = {} if tns is None else {"taxon_namespace": tns}
-        return birthdeath.birth_death_tree(float(Fraction(p["b"])), float(Fraction(p["d"])), num_extant_tips=p["n"], gsa_ntax=p["g"],
-                                           rng=rng, **kw), None
+        fn = birthdeath.fast_birth_death_tree if p.get("fast") else birthdeath.birth_death_tree
+        return fn(float(Fraction(p["b"])), float(Fraction(p["d"])), num_extant_tips=p["n"], gsa_ntax=p["g"], rng=rng, **kw), None
     if sim == "dbd":
         try:
             return treesim.discrete_birth_death_tree(float(Fraction(p["b"])), float(Fraction(p["d"])),
@@ -620,6 +635,8 @@ def model_line(case, log, tree, aux):
             return None
         mt = None if p.get("max_time") is None else int(Fraction(p["max_time"]) * SC)
         n0 = 0 if p.get("ns") is None else p["ns"][1]
+        if sim == "fbd" and (p.get("start") is not None or p.get("nx") is not None or p.get("nt") is not None):
+            return None     # oracle only: the model of the fast variant covers the tip-count / max_time rules from a fresh tree
         if p.get("start") is not None:
             st = p["start"]
             m = len(st["par"])
@@ -957,15 +974,27 @@ def one_case(ctx, dendropy, case, pending, compare=True):
         outs = [r[0] if isinstance(r[0], str) else canon(r[0], exact) for r in runs]
         if outs[0] != outs[1]:
             problems.append(("nondeterministic", "two runs from equal generator states differ: %s vs %s" % (outs[0][:300], outs[1][:300])))
-        ctx.case([sim, case["params"], case["rng"]], True, kind="gsa/" + case["rng"]["kind"] + ("/raises" if outs[0] == "RAISES" else ""))
+        ctx.case([sim, case["params"], case["rng"]], True,
+                 kind=("fgsa/" if case["params"].get("fast") else "gsa/") + case["rng"]["kind"] + ("/raises" if outs[0] == "RAISES" else ""))
         for kind, what in problems:
             ctx.fail(kind, "%s: %s" % (describe(case), what), rec)
         if not isinstance(res, str):
-            # outside the statement: recorded, not judged
+            # the General Sampling Approach promises the same kind of tree (a tree "at a time when it had exactly
+            # num_extant_tips leaves"): whenever one is returned it is judged like any other birth-death tree
+            o_shape(res, problems)
+            o_taxa(res, problems)
             rd = root_dists(res, exact)
-            if len(rd) != case["params"]["n"] or not all(close(x, rd[0], exact) for x in rd):
-                ctx.count("gsa_result_not_N_equidistant_tips")
-        if compare and exact and not problems:
+            if len(rd) != case["params"]["n"]:
+                problems.append(("tip_count", "num_extant_tips=%d with gsa_ntax=%d: tree has %d leaves" % (case["params"]["n"], case["params"]["g"], len(rd))))
+            if rd and not all(close(x, rd[0], exact) for x in rd):
+                problems.append(("equidistant", "gsa: extant tips are at root distances %s" % sorted(set(str(x) for x in rd))[:6]))
+            seen_k = set()
+            for kind, what in problems:
+                if kind in ("nondeterministic",) or kind.startswith("global_rng") or kind in seen_k:
+                    continue
+                seen_k.add(kind)
+                ctx.fail(kind, "%s: %s" % (describe(case), what), rec)
+        if compare and exact and not problems and not case["params"].get("fast"):
             p = case["params"]
             n0 = 0 if p.get("ns") is None else p["ns"][1]
             line = " ".join(["gsa", str(p["n"]), str(p["g"]), str(rate_int(p["b"])), str(rate_int(p["d"])), str(n0)] + log)
@@ -982,6 +1011,21 @@ def one_case(ctx, dendropy, case, pending, compare=True):
         ctx.case([sim, case["params"], case["rng"]], True, kind=sim + "/evolving-rates/" + case["rng"]["kind"])
         for kind, what in problems:
             ctx.fail(kind, "%s: %s" % (describe(case), what), rec)
+        if compare and exact and sim == "bd" and not problems and not getattr(rng, "incomparable", False):
+            # rates evolving below zero are modelled too (`wicN`): the code's ZeroDivisionError is the model's `err state`,
+            # any tree is compared as usual; other exception classes are left to the double run above
+            p = case["params"]
+            n0 = 0 if p.get("ns") is None else p["ns"][1]
+            line = " ".join(["bd", str(p["n"]), "-", str(rate_int(p["b"])), str(rate_int(p["d"])), str(n0)] + log)
+            if isinstance(res, str):
+                if res == "EXC ZeroDivisionError":
+                    pending.append((line, rec, ("RAW", "err state")))
+            else:
+                try:
+                    tns = res.taxon_namespace
+                    pending.append((line, rec, ("RAW", "ok " + model_text(res, lambda nd: str(tns.accession_index(nd.taxon))))))
+                except ValueError as e:
+                    ctx.note("not comparable: %s" % e)
         return res
     if sim == "rv":
         if repr(runs[0][0]) != repr(runs[1][0]):
@@ -1173,6 +1217,20 @@ def gen_bd(rng, max_n, sim="bd"):
             elif rr < 0.85:
                 p["nt"] = rng.randint(1, min(12, max_n))
             p["retain"] = rng.random() < 0.7
+    if sim == "fbd" and rng.random() < 0.25:
+        # the fast variant under the other entry options (judged by the oracle)
+        rr = rng.random()
+        if rr < 0.4 and "n" in p and "max_time" not in p:
+            p["start"] = gen_start(rng, rng.randint(1, max(1, min(4, p["n"]))))
+            p["ns"] = None
+        elif rr < 0.7 and d > 0:
+            p.pop("n", None)
+            p.pop("max_time", None)
+            p["nx"] = rng.randint(1, 4)
+        else:
+            p.pop("n", None)
+            p.pop("max_time", None)
+            p["nt"] = rng.randint(1, min(12, max_n))
     force = None
     if d > 0 and rng.random() < 0.3:
         # force the restart-after-total-extinction path: the single initial lineage dies k times, possibly after a birth
@@ -1205,7 +1263,9 @@ def gen_evolving(rng):
     if rng.random() < 0.7:
         spec = {"kind": "real", "seed": rng.getrandbits(32)}
     else:
-        spec = gen_script(rng, gauss_signed=True, limit=4000)
+        # no draws at the very ends of [0, 1) here: with weights of both signs a partial sum can equal 0 or 1 exactly, and on such a
+        # tie the float loop and exact arithmetic may legitimately differ
+        spec = gen_script(rng, gauss_signed=True, limit=4000, special=False)
     return {"sim": "bd", "params": p, "rng": spec, "d_only": True}
 
 
@@ -1214,7 +1274,9 @@ def gen_gsa(rng, max_n):
     d = b * rng.choice([Fraction(1, 4), Fraction(1, 2), Fraction(3, 4), Fraction(0), Fraction(7, 8)])
     n = rng.randint(1, min(8, max_n))
     p = {"b": str(b), "d": str(d), "n": n, "g": n + rng.randint(1, 6), "ns": gen_ns(rng, n)}
-    return {"sim": "gsa", "params": p, "rng": gen_rngspec(rng, 0.25)}
+    if rng.random() < 0.4:
+        p["fast"] = True
+    return {"sim": "gsa", "params": p, "rng": gen_rngspec(rng, 0.4 if p.get("fast") else 0.25)}
 
 
 def gen_pb(rng, max_n):
@@ -1403,9 +1465,9 @@ def fresh_interpreter(ctx, dendropy, cases):
 def run(ctx):
     dendropy = __import__("dendropy")
     rng = ctx.rng
-    ctx.set_budget(33, 420)
+    ctx.set_budget(28, 420)
     pending = []
-    n_iter = ctx.pick(3000, 150000)
+    n_iter = ctx.pick(2400, 150000)
     max_n = ctx.pick(10, 30)
     fresh = []
     for k in range(n_iter):
@@ -1432,7 +1494,7 @@ def run(ctx):
             case = gen_evolving(rng)
         if rng.random() < 0.05:
             case = gen_hist(rng)
-        if rng.random() < 0.05:
+        if rng.random() < 0.07:
             case = gen_gsa(rng, max_n)
         if rng.random() < 0.004:
             # the refusal stream: an empty namespace
@@ -1446,7 +1508,7 @@ def run(ctx):
     flush(ctx, pending)
     fresh_interpreter(ctx, dendropy, fresh)
     if ctx.tier == "thorough":
-        ctx.set_budget(33, 800)
+        ctx.set_budget(28, 800)
         exhaustive(ctx, dendropy, pending)
 
 
